@@ -87,6 +87,10 @@ def run(ck: Check, prog: Program) -> None:
                    f'`{_n(s_.node.ast)[:100]}`: {why}. A protocol error raised by a method with code 0 or message "" does not reach the '
                    f'caller with exactly its code and message')
     # "parameters that do not bind → -32602 without running it": the binder is Signature.bind over the filtered signature of THIS method
+    # "a document that is not a valid non-empty batch is answered -32600": the emptiness rejection is part of the batch deserialiser that
+    # BOTH dispatchers use (moved into one of them, the other answers `[]` with nothing)
+    from . import c06 as _c06
+    _c06._empty_batch_request(ck, _c06.model_program(prog))
     from .c04 import _bind_strict, bind_methods, validate_always
     _bind_strict(ck, prog)
     # ... on every path: a binder that skips the validation for some params (empty, omitted) lets a call with missing required
